@@ -45,7 +45,7 @@ func TestMain(m *testing.M) {
 		}
 	}
 	run = vk.Start("C16", "exploration")
-	run.Rule("cells of (session type x establishment prefix x termination path x second termination, sequential or concurrent) are enumerated in full for four systems built from bng's own code: (A) dhcp.Server + PoolManager + qos.Manager + nat.Manager + ebpf.Loader over the real kernel maps of the loaded working-tree objects, with radius.Client talking to a harness RADIUS server on loopback, composed as cmd/bng/main.go does; (B) pppoe.Server over the in-memory raw socket; (C) pppoe.SessionTeardown / KeepAliveManager over the real SessionManager and IPPool; (D) subscriber.Manager with a recording allocator, and radius.CoAProcessor + AccountingManager in front of it. A resource census (pool snapshot, lease table and circuit-id index, every fast-path map, QoS and NAT maps and manager tables, accounting records received per Acct-Session-Id) is taken before establishment, after establishment, after termination and after the second termination; non-trivial = distinct cell in which the census after establishment showed at least one resource held by the subject that the census before did not. Added classes: (1) establishment of system A with a fault at every resource-programming step (each kernel map Put of fast path / VLAN / circuit-id / QoS egress / QoS ingress / NAT, NAT pool exhaustion, refused Accounting-Start, refused address REQUEST, exhausted address pool; persisting or cleared before a renewal) x termination paths release / decline / expiry / lapse-rediscover, then ended twice more; (2) double termination with the second caller arriving while the first is held at a controlled point: pppoe.SessionTeardown (36 ordered path pairs x {PADT callback, eBPF callback, RADIUS Stop exchange, address release} of the subject's own first termination, and x {eBPF callback, RADIUS Stop exchange, address release} of an unrelated session's teardown that holds the teardown lock), subscriber.Manager ({TerminateSession, cleanup loop} x {TerminateSession, cleanup loop, Stop, CoA Disconnect-Request} x {between check and removal, inside the allocator's release of the IPv4 / IPv6 address, inside each terminate-event handler, inside the Accounting-Stop exchange of the accounting handler} x an operation of the establishment sequence arriving in between {none, UpdateActivity, ActivateSession, Set/ClearWalledGarden, Authenticate}); non-trivial = the held point was reached; (3) establishment cut short at every phase (DISCOVER only, repeated DISCOVER, refused REQUEST, DECLINE / RELEASE of the offer, DISCOVER after a released or lapsed session) followed by silence and the once-a-minute sweeps under virtual time, with no neighbour, renewing neighbours, long-lease neighbours, or a neighbour whose lease expires in the same sweep; (4) faults during termination: every external step of a termination path fails once or until cleared - the eBPF callback of pppoe.SessionTeardown returns an error, the Accounting-Stop exchange is refused or times out (the harness server has the record and answers with a reject / not at all), the allocator of subscriber.Manager refuses the release of the IPv4 / IPv6 address, the kernel refuses the delete from each fast-path / circuit-id / QoS / NAT map (the manager holds a read-only handle of the same kernel map) - x every termination path, then the fault is gone and the session is ended once more by every path a client, an operator or the system would take (second PADT / RELEASE, TerminateByID / ByMAC / ByUsername / TerminateAll, the next sweep / cleanup tick, shutdown); judged after that retry; non-trivial = the fault was met (error returned / record received under the fault / entry still in the refused map after the first attempt); (5) shutdown at every phase and lease age: stopAllAccounting of dhcp.Server with the subject offered-only, declined, refused, bound, renewed, expiring at this instant, lapsed but unswept (1 ns .. 59 s), lapsed and swept, released, re-DISCOVERed after a lapse, bound again after a lapse, with and without the sweep that was in flight at cancellation, plus the real Start/cancel with one-second leases; pppoe.Server.Stop with sessions in each phase; TerminateAll and subscriber.Manager.Stop over populations with sessions in every phase; (6) context-honouring collaborators: every termination path of subscriber.Manager (TerminateSession with each reason, re-authentication failure, idle / session timeout through the cleanup loop, Stop, Disconnect-Request through radius.CoAProcessor and through the real radius.CoAServer on loopback UDP, sessions that arrive after Stop ended by TerminateSession or a second Stop) and terminations that race with shutdown (a release of TerminateSession / the cleanup tick / a Disconnect-Request is in flight when Stop or the cancellation of the CoA server's context arrives; Stop's own release is in flight when an operator ends the same session) x {addressed, active} x {IPv4, IPv4+IPv6} x 1..3 neighbours, against (a) the recording allocator behind a front that sends nothing on a done context and abandons a request in flight when its context ends, under virtual time, and (b) the real nexus.HTTPAllocator talking to a harness allocation service over HTTP, with radius.AccountingManager + radius.Client as the accounting handler and an authenticator that honours its context, in real time; no fault is injected, every cell ends with Stop; non-trivial = the subject held an address in the allocator's table after establishment and at least one release request for it reached the allocator")
+	run.Rule("cells of (session type x establishment prefix x termination path x second termination, sequential or concurrent) are enumerated in full for four systems built from bng's own code: (A) dhcp.Server + PoolManager + qos.Manager + nat.Manager + ebpf.Loader over the real kernel maps of the loaded working-tree objects, with radius.Client talking to a harness RADIUS server on loopback, composed as cmd/bng/main.go does; (B) pppoe.Server over the in-memory raw socket; (C) pppoe.SessionTeardown / KeepAliveManager over the real SessionManager and IPPool; (D) subscriber.Manager with a recording allocator, and radius.CoAProcessor + AccountingManager in front of it. A resource census (pool snapshot, lease table and circuit-id index, every fast-path map, QoS and NAT maps and manager tables, accounting records received per Acct-Session-Id) is taken before establishment, after establishment, after termination and after the second termination; non-trivial = distinct cell in which the census after establishment showed at least one resource held by the subject that the census before did not. Added classes: (1) establishment of system A with a fault at every resource-programming step (each kernel map Put of fast path / VLAN / circuit-id / QoS egress / QoS ingress / NAT, NAT pool exhaustion, refused Accounting-Start, refused address REQUEST, exhausted address pool; persisting or cleared before a renewal) x termination paths release / decline / expiry / lapse-rediscover, then ended twice more; (2) double termination with the second caller arriving while the first is held at a controlled point: pppoe.SessionTeardown (36 ordered path pairs x {PADT callback, eBPF callback, RADIUS Stop exchange, address release} of the subject's own first termination, and x {eBPF callback, RADIUS Stop exchange, address release} of an unrelated session's teardown that holds the teardown lock), subscriber.Manager ({TerminateSession, cleanup loop} x {TerminateSession, cleanup loop, Stop, CoA Disconnect-Request} x {between check and removal, inside the allocator's release of the IPv4 / IPv6 address, inside each terminate-event handler, inside the Accounting-Stop exchange of the accounting handler} x an operation of the establishment sequence arriving in between {none, UpdateActivity, ActivateSession, Set/ClearWalledGarden, Authenticate}); non-trivial = the held point was reached; (3) establishment cut short at every phase (DISCOVER only, repeated DISCOVER, refused REQUEST, DECLINE / RELEASE of the offer, DISCOVER after a released or lapsed session) followed by silence and the once-a-minute sweeps under virtual time, with no neighbour, renewing neighbours, long-lease neighbours, or a neighbour whose lease expires in the same sweep; (4) faults during termination: every external step of a termination path fails once or until cleared - the eBPF callback of pppoe.SessionTeardown returns an error, the Accounting-Stop exchange is refused or times out (the harness server has the record and answers with a reject / not at all), the allocator of subscriber.Manager refuses the release of the IPv4 / IPv6 address, the kernel refuses the delete from each fast-path / circuit-id / QoS / NAT map (the manager holds a read-only handle of the same kernel map) - x every termination path, then the fault is gone and the session is ended once more by every path a client, an operator or the system would take (second PADT / RELEASE, TerminateByID / ByMAC / ByUsername / TerminateAll, the next sweep / cleanup tick, shutdown); judged after that retry; non-trivial = the fault was met (error returned / record received under the fault / entry still in the refused map after the first attempt); (5) shutdown at every phase and lease age: stopAllAccounting of dhcp.Server with the subject offered-only, declined, refused, bound, renewed, expiring at this instant, lapsed but unswept (1 ns .. 59 s), lapsed and swept, released, re-DISCOVERed after a lapse, bound again after a lapse, with and without the sweep that was in flight at cancellation, plus the real Start/cancel with one-second leases; pppoe.Server.Stop with sessions in each phase; TerminateAll and subscriber.Manager.Stop over populations with sessions in every phase; (6) context-honouring collaborators: every termination path of subscriber.Manager (TerminateSession with each reason, re-authentication failure, idle / session timeout through the cleanup loop, Stop, Disconnect-Request through radius.CoAProcessor and through the real radius.CoAServer on loopback UDP, sessions that arrive after Stop ended by TerminateSession or a second Stop) and terminations that race with shutdown (a release of TerminateSession / the cleanup tick / a Disconnect-Request is in flight when Stop or the cancellation of the CoA server's context arrives; Stop's own release is in flight when an operator ends the same session) x {addressed, active} x {IPv4, IPv4+IPv6} x 1..3 neighbours, against (a) the recording allocator behind a front that sends nothing on a done context and abandons a request in flight when its context ends, under virtual time, and (b) the real nexus.HTTPAllocator talking to a harness allocation service over HTTP, with radius.AccountingManager + radius.Client as the accounting handler and an authenticator that honours its context, in real time; no fault is injected, every cell ends with Stop; non-trivial = the subject held an address in the allocator's table after establishment and at least one release request for it reached the allocator; (7) a session of system A ended by a path of its own (RELEASE, DECLINE, the sweep, the reclaim of a lapsed lease on a re-DISCOVER) before, after or at the same time as the shutdown path stopAllAccounting, x {bound, renewed} x 0..2 neighbours, full census judged and then ended once more; (8) several sessions under one lookup key of pppoe.SessionTeardown: seeded populations of two MACs with 1..3 sessions each (RFC 2516 allows several sessions per MAC; user names shared or not; phases unauthenticated / authenticated / established, creation order interleaved) ended step by step by seeded sequences of client PADT, TerminateSession, TerminateByID, TerminateByMAC, TerminateByUsername and finally cleared by TerminateByMAC, judged after every step; non-trivial = distinct (population, creation order, path sequence) with a MAC that holds several sessions")
 	run.Assume("the RADIUS server is the harness's own (RFC 2865/2866 encoder written from the RFC); a Start/Stop counts as issued when the server received it, whatever it answered")
 	run.Assume("fault injection: a fault at a map Put is a real kernel hash map (same key/value sizes as the loaded object's map, a dozen entries) handed to the manager through VerifSetMaps and filled with the neighbours' entries plus foreign keys until the kernel refuses the next insert (E2BIG), as a full production map does; NAT exhaustion = every port block taken by other private addresses; accounting fault = the server receives the record and answers with a reject")
 	run.Assume("overlap cases run in real time with bounded waits (a goroutine waiting for a mutex is not durably blocked for synctest); the oracle of these cases only counts records, releases and events after every held caller has been let go, so a slow machine can make a case less sharp (second caller not yet at the lock) but cannot produce a violation")
@@ -55,6 +55,8 @@ func TestMain(m *testing.M) {
 	run.Assume("termination faults: the fast-path leaf of pppoe.SessionTeardown is the harness's recording callback (an error means nothing was removed); a read-only map handle refuses Put and Delete with EPERM and leaves the table readable; when the exchange of the first Accounting-Stop failed, a Stop record that is sent again is not counted as a second Stop")
 	run.Assume("shutdown: the in-memory tables and kernel maps of a dhcp.Server / pppoe.Server that shuts down die with the process - what they still hold is counted, not judged; judged are the accounting records (one Stop per Start by the end of shutdown) and, for subscriber.Manager and SessionTeardown whose allocator / pool / fast path are external, everything")
 	run.Assume("context-honouring collaborators: the allocator table that counts is the recording table / the table of the remote allocation service; a slow service that finds the client has hung up before it carried a DELETE out does not carry it out; the glue between radius.CoAProcessor and subscriber.Manager is the one-line terminator that passes the context it is given on to TerminateSession; the dhcp and pppoe servers hand no context of their own to a collaborator on a termination path other than the shutdown path of dhcp.Server.Start, which the real Start/cancel cells drive with the real radius.Client")
+	run.Assume("own path during shutdown: what a dhcp.Server that goes down leaves for sessions nothing else ended is not judged (previous assumption), but a session that a RELEASE / DECLINE / sweep / reclaim ends holds nothing afterwards whether or not the shutdown path had already sent its Accounting-Stop: the release of the address, fast path keys, QoS policy and NAT block by these paths does not depend on who closed the accounting record (the QoS and NAT managers are objects of their own that outlive dhcp.Server.Start)")
+	run.Assume("shared keys: TerminateByMAC called while the MAC has a session in the session table must end at least one session of that MAC (which one, or all of them, is left open); a path that addresses a session by handle or id ends exactly that one; TerminateByUsername ends every session of the name")
 	run.Assume("Stop-without-Start is recorded as an observation only: the statement demands a Stop for every Start, not the converse")
 	// floors: far below what the quick tier observes; falling under them means the harness could not judge
 	for k, n := range map[string]int64{
@@ -80,6 +82,10 @@ func TestMain(m *testing.M) {
 		"ctx_cells": 60, "ctx_cells:ctx-honouring": 40, "ctx_cells:nexus-http": 15, "ctx_cells_with_release_of_a_held_address": 60, "ctx_release_requests_reached_allocator": 200,
 		"ctx_release_in_flight_reached": 12, "ctx_held_point_x_path_reached": 6, "ctx_http_deletes_received_by_service": 40, "ctx_final_shutdown_sessions": 50,
 		"ctx_path:shutdown": 3, "ctx_path:late-session/stop-again": 3, "ctx_path:stop-in-flight+terminate": 3, "ctx_path:cleanup-tick-in-flight-at-stop": 3, "ctx_path:coa-server/disconnect-request-in-flight-at-shutdown": 2,
+		// own path while shutting down; several sessions under one key
+		"shutdown_own_path_cells": 60, "shutdown_own_path_after_shutdown_stop": 16, "shutdown_own_path_after_shutdown_stop:release": 4, "shutdown_own_path_after_shutdown_stop:decline": 4,
+		"shutdown_own_path_after_shutdown_stop:expiry": 4, "shutdown_own_path_after_shutdown_stop:lapse-rediscover": 4, "shutdown_own_path_second_terminations": 15,
+		"shared_key_cases": 40, "shared_key_steps": 150, "shared_key_by_mac_with_live_session": 80, "shared_key_by_mac_after_a_session_of_the_mac_ended": 40, "shared_key_by_mac_after_newest_session_of_the_mac_ended": 15,
 		"ipoe_path_lapse-rediscover": 40, "ipoe_path_lapse-rediscover-request": 40, "ipoe_lapse_rediscover_new_session_observed": 30,
 	} {
 		run.Floor(k, n)
